@@ -464,6 +464,31 @@ func vpUserInfo(p *oidc.Provider, ctx context.Context, ts oauth2.TokenSource) (*
 	if vpIdpPerCall {
 		vpIdpAsked[vpPresentation] = true
 	}
+	if vpIdpByToken != nil {
+		// an identity provider with sessions: the verdict belongs to the access token it is shown; the answer
+		// about one of them takes long enough for the gateway to serve other tunnels meanwhile
+		tok := vpIdpToken
+		vpIdpShown = append(vpIdpShown, tok)
+		if tok == vpIdpSlowToken {
+			if vpIdpSlowEntered != nil {
+				close(vpIdpSlowEntered) // the other presentation starts now
+				vpIdpSlowEntered = nil
+			}
+			if vpSymbolic() {
+				vpRunTasks()
+			} else {
+				// native replay: wait until the other presentation has been judged (or gave up waiting for us)
+				select {
+				case <-vpIdpOtherDone:
+				case <-time.After(300 * time.Millisecond):
+				}
+			}
+		}
+		if !vpIdpByToken[tok] {
+			return nil, errors.New("vp: IdP refuses the access token")
+		}
+		return &oidc.UserInfo{Subject: "sub"}, nil
+	}
 	// an identity provider that does not answer before the caller's deadline (if the caller set one)
 	if _, has := ctx.Deadline(); has && vpBool("idp-silent-until-the-deadline-"+vpItoa(vpIdpCalls)) {
 		vpCtxExpire(ctx)
@@ -485,6 +510,10 @@ func vpUserInfo(p *oidc.Provider, ctx context.Context, ts oauth2.TokenSource) (*
 }
 
 var (
+	vpIdpByToken   map[string]bool
+	vpIdpSlowToken string
+	vpIdpShown     []string
+	vpIdpSlowEntered, vpIdpOtherDone chan struct{}
 	vpMintedToken  bool
 	vpMintedAlg    string
 	vpMintedKeyIs  bool
